@@ -75,7 +75,7 @@ def main():
         res["demo_output_with"] = "\n".join([l for l in out1.splitlines() if l.strip()][:6])[:600]
         # the check, against the patched scratch worktree (same sources as /repo + patch; /repo itself is left alone so
         # that several mutants can be evaluated at once)
-        rc, out = run(["/verif/bin/bchverif", "-prop", prop, "-tier", "quick", "-noevidence", "-repo", wt, "-verif", "/verif"], cwd="/verif", timeout=1800)
+        rc, out = run([os.environ.get("BCHVERIF_BIN", "/verif/bin/bchverif"), "-prop", prop, "-tier", "quick", "-noevidence", "-repo", wt, "-verif", "/verif"], cwd="/verif", timeout=1800)
         res["check_exit"] = rc
         res["check_violations"] = [l for l in out.splitlines() if "violated in" in l][:6]
     finally:
